@@ -71,6 +71,7 @@ def correlated_reach(fn, start, targets, avoid, key_of):
 
 def run(ctx):
     F = ctx.load(CRATES)
+    _struct_ctor_order(ctx, F)
     exc = load_table()
     used = set()
     SEM = "cairo_lang_semantic::items::constant::"
@@ -398,3 +399,100 @@ def _controls(ctx, F, efc):
     m = Fn(d, efc.crate)
     vl = [c for c in m.calls() if c.name() == "validate_literal"]
     ctx.control("validation removed from the const evaluator", n >= 2 and not vl)
+
+
+def _struct_ctor_order(ctx, F):
+    """R7.8: whoever turns the members of a struct constructor expression into an ordered sequence orders them by the
+    declaration of the struct, not by the order they were written in.
+
+    `ExprStructCtor::members` is in source order (`S { b: 2, a: 1 }`); the run-time path (`lower_expr_struct_ctor`) builds
+    the value by iterating `concrete_struct_members` and looking each written member up by id.  The compile-time
+    evaluator has to produce the same member order.  Rule: in every function (with its closures) that reads the
+    `members` field of an `ExprStructCtor`, a `collect` / `from_iter` into a `Vec` whose *driving* iterator (the receiver
+    chain, not what its closures look things up in) comes from that field must also come from
+    `concrete_struct_members`."""
+    from .lib import place_proj, rvalue_places, rvalue_operands, op_place
+
+    def reads_members(f):
+        for i, j, st in f.stmts():
+            if st[0] != "a":
+                continue
+            for p in rvalue_places(st[2]):
+                for e in place_proj(p):
+                    if isinstance(e, list) and e[0] == "f" and e[2] == "members" and len(e) > 3 and str(e[3]).endswith("ExprStructCtor"):
+                        return True
+        return False
+
+    def driver(f, op, limit=600):
+        """(call names, reads ExprStructCtor.members?) on the receiver chain of an iterator expression"""
+        names, hit, todo, seen = set(), False, [op], set()
+        while todo and len(seen) < limit:
+            o = todo.pop()
+            pl = op_place(o)
+            if pl is None:
+                continue
+            for e in place_proj(pl):
+                if isinstance(e, list) and e[0] == "f" and e[2] == "members" and len(e) > 3 and str(e[3]).endswith("ExprStructCtor"):
+                    hit = True
+            l = place_local(pl)
+            if l in seen:
+                continue
+            seen.add(l)
+            if 1 <= l <= f.argc and f.kind == "Closure" and l == 1:
+                pass
+            for d in f.defs().get(l, []):
+                if d[0] == "stmt":
+                    rv = d[3]
+                    if rv[0] == "ref":
+                        todo.append(["c", rv[1]])
+                    elif rv[0] == "agg" and rv[1] == "closure":
+                        continue
+                    else:
+                        todo.extend(rvalue_operands(rv))
+                elif d[0] == "call":
+                    c = d[2]
+                    names.add(c.name())
+                    if c.name() == "concrete_struct_members":
+                        continue
+                    if c.name() in ("zip", "zip_eq", "chain", "izip", "interleave", "zip_longest"):
+                        todo.extend(c.args)
+                    elif c.args:
+                        todo.append(c.args[0])
+        return names, hit
+    n_fn = n_seq = n_decl = 0
+    for p, f in sorted(F.fns.items()):
+        if not f.body or f.kind == "Closure" or f.d.get("derived"):
+            continue
+        fs = [f] + F.closures_of(f)
+        if not any(reads_members(g) for g in fs):
+            continue
+        seqs = []
+        for g in fs:
+            for c in g.calls():
+                if c.name() not in ("collect", "collect_vec", "from_iter") or not c.args:
+                    continue
+                dty = g.local_ty(place_local(c.dest)) or ""
+                if "alloc::vec::Vec" not in dty or "HashMap" in dty or "HashSet" in dty:
+                    continue
+                names, hit = driver(g, c.args[-1] if c.name() == "from_iter" else c.args[0])
+                seqs.append((g, c, names, hit))
+        if not seqs:
+            continue
+        n_fn += 1
+        ctx.analysed(f)
+        k = 0
+        for g, c, names, hit in seqs:
+            by_decl = "concrete_struct_members" in names
+            n_decl += 1 if by_decl else 0
+            if not hit and not by_decl:
+                continue
+            k += 1
+            n_seq += 1
+            ok = by_decl or not hit
+            ctx.ob("R7.8", "%s|sequence#%d" % (fn_key(p), k), ok,
+                   "the sequence is driven by the declared members (concrete_struct_members); the written members are only looked up" if ok else
+                   "a sequence is built in the order the members of the struct constructor were written (ExprStructCtor::members drives the "
+                   "iterator, concrete_struct_members does not): `S { b: 2, a: 1 }` and `S { a: 1, b: 2 }` evaluate to different values, "
+                   "unlike at run time", c.where())
+    ctx.floor("functions that order the members of a struct constructor", n_fn, 2)
+    ctx.floor("sequences driven by the declared member order", n_decl, 2)
